@@ -570,6 +570,253 @@ def expf_grid(self, result):
     return grid_ok(self.x, self.n, result)
 
 
+# ------------------------------------------------------------------------------- ExpFixedRFA.rfa: values (C05 - C07)
+
+def elin(x, x0, y0, x1, y1, al):
+    """funfit.exp_lin_fit as a specification function (same term structure as its proved postcondition)"""
+    return ((y0 + (y1 - y0) * ((x - x0) / (x1 - x0))) * ((x - x0) / (x1 - x0))
+            + (y0 + (y1 - y0) * pw((x - x0) / (x1 - x0), al)) * ((x1 - x) / (x1 - x0)))
+
+
+def lexy(x, x0, y0, x1, y1, al):
+    """funfit.lin_exp_xy_fit as a specification function"""
+    return ((y0 + (y1 - y0) * (1 - pw((x1 - x) / (x1 - x0), al))) * ((x - x0) / (x1 - x0))
+            + (y0 + (y1 - y0) * ((x - x0) / (x1 - x0))) * ((x1 - x) / (x1 - x0)))
+
+
+@opaque
+def xr(self, K, j):
+    """abscissa j of interval K where j may be n (the first abscissa of the next interval)"""
+    return xe(self, K, j) if j < self.n else xe(self, K + 1, 0)
+
+
+@opaque
+def zlb(self, K):
+    """value where the linear piece of the left transition ends (sample b): on the straight line border value -> plateau"""
+    return lf(xe(self, K, self.b), xe(self, K, 0), z0(self, K), xe(self, K, self.a_l), ye(self, K))
+
+
+@opaque
+def zrb(self, K):
+    """value where the linear piece of the right transition starts (sample n - b)"""
+    return lf(xr(self, K, self.n - self.b), xe(self, K, self.n - self.a_r), ye(self, K), xe(self, K + 1, 0), z0(self, K + 1))
+
+
+@opaque
+def fe1(self, K, j):
+    return lf(xe(self, K, j), xe(self, K, 0), z0(self, K), xe(self, K, self.b), zlb(self, K))
+
+
+@opaque
+def fe2(self, K, j):
+    return lexy(xe(self, K, j), xe(self, K, self.b), zlb(self, K), xe(self, K, self.a_l), ye(self, K), self.exp)
+
+
+@opaque
+def fe4(self, K, j):
+    return elin(xe(self, K, j), xe(self, K, self.n - self.a_r), ye(self, K), xr(self, K, self.n - self.b), zrb(self, K), self.exp)
+
+
+@opaque
+def fe5(self, K, j):
+    return lf(xe(self, K, j), xr(self, K, self.n - self.b), zrb(self, K), xe(self, K + 1, 0), z0(self, K + 1))
+
+
+@opaque
+def fe(self, K, j):
+    """sample j of the extended interval K as ExpFixedRFA documents it: linear piece, linear/power blend, plateau, power/linear
+    blend, linear piece"""
+    return (fe1(self, K, j) if j < self.b else
+            (fe2(self, K, j) if j < self.a_l else
+             (ye(self, K) if j < self.n - self.a_r else
+              (fe4(self, K, j) if j < self.n - self.b else fe5(self, K, j)))))
+
+
+ghost(EXPF + '.rfa', before='y_0 = y[k, 0]', name='zk', expr='z.a.copy()')
+
+
+@hint(EXPF + '.rfa', before=BEFORE_LOOP)
+def expf_h_grid_mid(self, x, y):
+    return ext_mid(self, x.a, y.a)
+
+
+@hint(EXPF + '.rfa', before=BEFORE_LOOP)
+def expf_h_grid_left0(self, osx, x):
+    return osx[0] == self.x[0] and osx[self.n] == self.x[1] and 2 * osx[0] - osx[self.n] == 2 * self.x[0] - self.x[1]
+
+
+@hint(EXPF + '.rfa', before=BEFORE_LOOP)
+def expf_h_grid_left(self, x, y):
+    return ext_left(self, x.a, y.a)
+
+
+@hint(EXPF + '.rfa', before=BEFORE_LOOP)
+def expf_h_grid_right(self, x, y):
+    return ext_right(self, x.a, y.a)
+
+
+@hint(EXPF + '.rfa', before=BEFORE_LOOP)
+def expf_h_grid(self, x, y, z):
+    return ext_grid(self, x.a, y.a) and forall(range(ext_len(self)), lambda t: z.a[t] == y.a[t])
+
+
+def frame_before(self, za, zk, k):
+    return forall(range(ext_len(self)), lambda t: za[t] == zk[t] if t < k * self.n else True)
+
+
+def seg1(self, za, k, hi):
+    return forall(range(hi), lambda j: za[k * self.n + j] == fe1(self, k, j))
+
+
+def seg2(self, za, k, hi):
+    return forall(range(self.b, hi), lambda j: za[k * self.n + j] == fe2(self, k, j))
+
+
+def seg4(self, za, k, hi):
+    return forall(range(self.n - self.a_r, hi), lambda j: za[k * self.n + j] == fe4(self, k, j))
+
+
+def seg5(self, za, k, hi):
+    return forall(range(self.n - self.b, hi), lambda j: za[k * self.n + j] == fe5(self, k, j))
+
+
+def plateau_untouched(self, za, ya, k, i):
+    """not yet written in iteration k: the plateau a_l .. n-a_r-1 and everything from k*n + i on"""
+    return forall(range(ext_len(self)), lambda t: za[t] == ya[t]
+                  if (t >= k * self.n + self.a_l and (t < k * self.n + self.n - self.a_r or t >= k * self.n + i)) else True)
+
+
+@invariant(EXPF + '.rfa', loop=1)
+def expf_inv1_values(self, x, y, z, k):
+    return (ext_grid(self, x.a, y.a)
+            and forall(range(1, k), lambda K: forall(range(self.n), lambda j: z.a[K * self.n + j] == fe(self, K, j)))
+            and untouched_from(self, z.a, y.a, k * self.n))
+
+
+@hint(EXPF + '.rfa', before='for i in range(0, b)')
+def expf_h_locals(self, a_l, a_r, b, exp, n):
+    return a_l == self.a_l and a_r == self.a_r and b == self.b and exp == self.exp and n == self.n
+
+
+@hint(EXPF + '.rfa', before='for i in range(0, b)')
+def expf_h_points(self, x, y, k):
+    return (x.a[k * self.n] == xe(self, k, 0) and x.a[k * self.n - self.a_r] == xe(self, k - 1, self.n - self.a_r)
+            and x.a[k * self.n + self.a_l] == xe(self, k, self.a_l) and x.a[k * self.n + self.n - self.a_r] == xe(self, k, self.n - self.a_r)
+            and x.a[(k + 1) * self.n] == xe(self, k + 1, 0) and x.a[(k + 1) * self.n + self.a_l] == xe(self, k + 1, self.a_l)
+            and x.a[k * self.n + self.b] == xe(self, k, self.b)
+            and y.a[(k - 1) * self.n] == ye(self, k - 1) and y.a[k * self.n] == ye(self, k) and y.a[(k + 1) * self.n] == ye(self, k + 1))
+
+
+@hint(EXPF + '.rfa', before='for i in range(0, b)')
+def expf_h_point_nb_in(self, x, k):
+    return implies(self.b >= 1, x.a[k * self.n + self.n - self.b] == xe(self, k, self.n - self.b) and xr(self, k, self.n - self.b) == xe(self, k, self.n - self.b))
+
+
+@hint(EXPF + '.rfa', before='for i in range(0, b)')
+def expf_h_point_nb_end(self, x, k):
+    return implies(self.b == 0, x.a[k * self.n + self.n - self.b] == xe(self, k + 1, 0) and xr(self, k, self.n - self.b) == xe(self, k + 1, 0))
+
+
+@hint(EXPF + '.rfa', before='for i in range(0, b)')
+def expf_h_point_nb(self, x, k):
+    return x.a[k * self.n + self.n - self.b] == xr(self, k, self.n - self.b)
+
+
+@hint(EXPF + '.rfa', before='for i in range(0, b)')
+def expf_h_borders(self, k, y_0, z_0, z_1):
+    return y_0 == ye(self, k) and z_0 == z0(self, k) and z_1 == z0(self, k + 1)
+
+
+@hint(EXPF + '.rfa', before='for i in range(0, b)')
+def expf_h_borders2(self, k, z_0_lb, z_0_rb):
+    return z_0_lb == zlb(self, k) and z_0_rb == zrb(self, k)
+
+
+@invariant(EXPF + '.rfa', loop=2)
+def expf_inv2_values(self, x, y, z, zk, k, i):
+    return frame_before(self, z.a, zk, k) and seg1(self, z.a, k, i) and untouched_from(self, z.a, y.a, k * self.n + i)
+
+
+@hint(EXPF + '.rfa', loop=2, when='head')
+def expf_h2_point(self, x, k, i):
+    return x.a[k * self.n + i] == xe(self, k, i)
+
+
+@hint(EXPF + '.rfa', loop=2, when='end')
+def expf_h2_stored(self, z, k, i):
+    return z.a[k * self.n + (i - 1)] == fe1(self, k, i - 1)
+
+
+@invariant(EXPF + '.rfa', loop=3)
+def expf_inv3_values(self, x, y, z, zk, k, i):
+    return (frame_before(self, z.a, zk, k) and seg1(self, z.a, k, self.b) and seg2(self, z.a, k, i)
+            and untouched_from(self, z.a, y.a, k * self.n + i))
+
+
+@hint(EXPF + '.rfa', loop=3, when='head')
+def expf_h3_point(self, x, k, i):
+    return x.a[k * self.n + i] == xe(self, k, i)
+
+
+@hint(EXPF + '.rfa', loop=3, when='end')
+def expf_h3_stored(self, z, k, i):
+    return z.a[k * self.n + (i - 1)] == fe2(self, k, i - 1)
+
+
+@invariant(EXPF + '.rfa', loop=4)
+def expf_inv4_values(self, x, y, z, zk, k, i):
+    return (frame_before(self, z.a, zk, k) and seg1(self, z.a, k, self.b) and seg2(self, z.a, k, self.a_l) and seg4(self, z.a, k, i)
+            and plateau_untouched(self, z.a, y.a, k, i))
+
+
+@hint(EXPF + '.rfa', loop=4, when='head')
+def expf_h4_point(self, x, k, i):
+    return x.a[k * self.n + i] == xe(self, k, i)
+
+
+@hint(EXPF + '.rfa', loop=4, when='end')
+def expf_h4_stored(self, z, k, i):
+    return z.a[k * self.n + (i - 1)] == fe4(self, k, i - 1)
+
+
+@invariant(EXPF + '.rfa', loop=5)
+def expf_inv5_values(self, x, y, z, zk, k, i):
+    return (frame_before(self, z.a, zk, k) and seg1(self, z.a, k, self.b) and seg2(self, z.a, k, self.a_l)
+            and seg4(self, z.a, k, self.n - self.b) and seg5(self, z.a, k, i) and plateau_untouched(self, z.a, y.a, k, i))
+
+
+@hint(EXPF + '.rfa', loop=5, when='head')
+def expf_h5_point(self, x, k, i):
+    return x.a[k * self.n + i] == xe(self, k, i)
+
+
+@hint(EXPF + '.rfa', loop=5, when='end')
+def expf_h5_stored(self, z, k, i):
+    return z.a[k * self.n + (i - 1)] == fe5(self, k, i - 1)
+
+
+@hint(EXPF + '.rfa', loop=1, when='end')
+def expf_h1_blocks(self, k):
+    return forall(range(1, k - 1), lambda K: K * self.n + self.n <= (k - 1) * self.n)
+
+
+@hint(EXPF + '.rfa', loop=1, when='end')
+def expf_h1_frame(self, z, zk, k):
+    return forall(range(1, k - 1), lambda K: forall(range(self.n), lambda j: z.a[K * self.n + j] == zk[K * self.n + j]))
+
+
+@hint(EXPF + '.rfa', loop=1, when='end')
+def expf_h1_current(self, z, k):
+    return forall(range(self.n), lambda j: z.a[(k - 1) * self.n + j] == fe(self, k - 1, j))
+
+
+@ensures(EXPF + '.rfa')
+def expf_values(self, result):
+    """C06: every recreated sample equals the documented closed form; the last sample is the last average"""
+    return (forall(range(len(self.x) - 1), lambda q: forall(range(self.n), lambda j: eq(result[1][q * self.n + j], fe(self, q + 1, j))))
+            and eq(result[1][(len(self.x) - 1) * self.n], ye(self, len(self.x))))
+
+
 # =============================================================================== adaptive windows
 
 GATP = LINA + '.get_adaptive_transition_points'
@@ -1013,7 +1260,7 @@ def linf_rt_c06(self, result):
 
 @ensures(LINF + '.rfa', assumed=BOUNDED)
 def linf_rt_c07(self, result):
-    return RT.equivariant(self, result) and RT.local(self, result, 1)
+    return RT.equivariant(self, result) and RT.local(self, result, 1) and RT.linear(self, result)
 
 
 @ensures(EXPF + '.rfa', assumed=BOUNDED)
@@ -1033,7 +1280,7 @@ def expf_rt_c06(self, result):
 
 @ensures(EXPF + '.rfa', assumed=BOUNDED)
 def expf_rt_c07(self, result):
-    return RT.equivariant(self, result) and RT.local(self, result, 1)
+    return RT.equivariant(self, result) and RT.local(self, result, 1) and RT.linear(self, result)
 
 
 @ensures(LINA + '.rfa', assumed=BOUNDED)
@@ -1073,7 +1320,7 @@ def pwc_rt_c04(self, result):
 
 @ensures(PWC + '.rfa', assumed=BOUNDED)
 def pwc_rt_c07(self, result):
-    return RT.constant_ok(self, result) and RT.equivariant(self, result) and RT.local(self, result, 0)
+    return RT.constant_ok(self, result) and RT.equivariant(self, result) and RT.local(self, result, 0) and RT.linear(self, result)
 
 
 CUBRFA = CUB + '.rfa'
@@ -1098,4 +1345,155 @@ def cub_rt_c05(self, result):
 
 @ensures(CUBRFA, assumed=BOUNDED)
 def cub_rt_c07(self, result):
-    return RT.equivariant(self, result)
+    return RT.equivariant(self, result) and RT.linear(self, result)
+
+
+# =============================================================================== lemmas over the ExpFixedRFA closed form
+
+def expf_order(self, K):
+    """the abscissae interval K reads, in sample order"""
+    return (xe(self, K - 1, self.n - self.a_r) < xe(self, K, 0) and xe(self, K, 0) <= xe(self, K, self.b) and xe(self, K, self.b) <= xe(self, K, self.a_l)
+            and xe(self, K, 0) < xe(self, K, self.a_l) and xe(self, K, self.a_l) <= xe(self, K, self.n - self.a_r)
+            and xe(self, K, self.n - self.a_r) <= xr(self, K, self.n - self.b) and xr(self, K, self.n - self.b) <= xe(self, K + 1, 0)
+            and xe(self, K, self.n - self.a_r) < xe(self, K + 1, 0) and xe(self, K + 1, 0) < xe(self, K + 1, self.a_l))
+
+
+LBE = 'lemma:rfa.exp_fixed.bounds'
+contract(LBE, params=dict(self=Obj(EXPF), K=Int, j=Int), lemma=True, no_rt=True)
+
+
+@requires(LBE)
+def lbe_pre(self, K, j):
+    return expf_pre(self) and interior(self, K, j)
+
+
+@hint(LBE, when='entry')
+def lbe_h_xr(self, K, j):
+    return (xr(self, K, self.n - self.b) == (xe(self, K, self.n - self.b) if self.b >= 1 else xe(self, K + 1, 0)))
+
+
+@hint(LBE, when='entry')
+def lbe_h_order(self, K, j):
+    return expf_order(self, K)
+
+
+@hint(LBE, when='entry')
+def lbe_h_order_j(self, K, j):
+    return (implies(j < self.b, xe(self, K, 0) <= xe(self, K, j) and xe(self, K, j) < xe(self, K, self.b))
+            and implies(self.b <= j and j < self.a_l, xe(self, K, self.b) <= xe(self, K, j) and xe(self, K, j) < xe(self, K, self.a_l))
+            and implies(self.n - self.a_r <= j and j < self.n - self.b,
+                        xe(self, K, self.n - self.a_r) <= xe(self, K, j) and xe(self, K, j) < xr(self, K, self.n - self.b))
+            and implies(self.n - self.b <= j, xr(self, K, self.n - self.b) <= xe(self, K, j) and xe(self, K, j) < xe(self, K + 1, 0)))
+
+
+@hint(LBE, when='entry')
+def lbe_h_borders(self, K, j):
+    return between(z0(self, K), ye(self, K - 1), ye(self, K)) and between(z0(self, K + 1), ye(self, K), ye(self, K + 1))
+
+
+@hint(LBE, when='entry')
+def lbe_h_breaks(self, K, j):
+    """the two break points lie on the straight lines border value - plateau"""
+    return between(zlb(self, K), z0(self, K), ye(self, K)) and between(zrb(self, K), ye(self, K), z0(self, K + 1))
+
+
+@ensures(LBE)
+def lbe_border(self, K, j):
+    """C06: the first sample of an interval is the border value (straight line between the plateau ends of the adjacent
+    intervals, taken at the border)"""
+    return fe(self, K, 0) == z0(self, K)
+
+
+@ensures(LBE)
+def lbe_plateau(self, K, j):
+    """C05: samples a_l .. n-a_r (inclusive: the first sample of the right transition is still the average) equal the average,
+    so at most a_l + a_r - 1 <= a - 1 samples differ"""
+    return (implies(self.a_l <= j and j <= self.n - self.a_r and j < self.n, fe(self, K, j) == ye(self, K))
+            and self.a_l + self.a_r - 1 <= self.a - 1)
+
+
+@ensures(LBE)
+def lbe_left_linear(self, K, j):
+    return implies(j < self.b, between(fe(self, K, j), z0(self, K), zlb(self, K)))
+
+
+@ensures(LBE)
+def lbe_left_blend(self, K, j):
+    return implies(self.b <= j and j < self.a_l, between(fe(self, K, j), zlb(self, K), ye(self, K)))
+
+
+@ensures(LBE)
+def lbe_left(self, K, j):
+    """C05: every left transition sample lies between the two adjacent averages"""
+    return implies(j < self.a_l, between(fe(self, K, j), ye(self, K - 1), ye(self, K)))
+
+
+@ensures(LBE)
+def lbe_right_blend(self, K, j):
+    return implies(self.n - self.a_r <= j and j < self.n - self.b, between(fe(self, K, j), ye(self, K), zrb(self, K)))
+
+
+@ensures(LBE)
+def lbe_right_linear(self, K, j):
+    return implies(self.n - self.b <= j, between(fe(self, K, j), zrb(self, K), z0(self, K + 1)))
+
+
+@ensures(LBE)
+def lbe_right(self, K, j):
+    return implies(self.n - self.a_r <= j, between(fe(self, K, j), ye(self, K), ye(self, K + 1)))
+
+
+def same_setup_e(s1, s2):
+    return (len(s1.x) == len(s2.x) and s1.n == s2.n and s1.a == s2.a and s1.a_l == s2.a_l and s1.a_r == s2.a_r and s1.b == s2.b
+            and s1.exp == s2.exp)
+
+
+def grid_points_e(s1, s2, K, j, c, d):
+    """every abscissa the closed form of interval K reads, in the two objects"""
+    return (xe(s2, K, j) == c * xe(s1, K, j) + d and xe(s2, K, 0) == c * xe(s1, K, 0) + d
+            and xe(s2, K, s1.a_l) == c * xe(s1, K, s1.a_l) + d and xe(s2, K, s1.n - s1.a_r) == c * xe(s1, K, s1.n - s1.a_r) + d
+            and xe(s2, K - 1, s1.n - s1.a_r) == c * xe(s1, K - 1, s1.n - s1.a_r) + d
+            and xe(s2, K + 1, 0) == c * xe(s1, K + 1, 0) + d and xe(s2, K + 1, s1.a_l) == c * xe(s1, K + 1, s1.a_l) + d
+            and xe(s2, K, s1.b) == c * xe(s1, K, s1.b) + d and xr(s2, K, s1.n - s1.b) == c * xr(s1, K, s1.n - s1.b) + d)
+
+
+# (An equivariance lemma for the ExpFixedRFA closed form was tried: the blend identities al*[..] + be*(t + (1-t)) are beyond the
+# solver's nonlinear reasoning within the budgets used here; C07's change-of-units clause stays BOUNDED for ExpFixedRFA.)
+
+LLE = 'lemma:rfa.exp_fixed.locality'
+contract(LLE, params=dict(s1=Obj(EXPF), s2=Obj(EXPF), K=Int, j=Int), lemma=True, no_rt=True)
+
+
+@requires(LLE)
+def lle_pre(s1, s2, K, j):
+    return (expf_pre(s1) and expf_pre(s2) and same_setup_e(s1, s2) and interior(s1, K, j)
+            and forall(range(len(s1.x)), lambda i: s2.x[i] == s1.x[i])
+            and forall(range(len(s1.x)), lambda i: s2.y[i] == s1.y[i] if (K - 2 <= i and i <= K) else True)
+            and 2 <= K and K <= len(s1.x) - 2)
+
+
+@hint(LLE, when='entry')
+def lle_h_xr(s1, s2, K, j):
+    return (xr(s1, K, s1.n - s1.b) == (xe(s1, K, s1.n - s1.b) if s1.b >= 1 else xe(s1, K + 1, 0))
+            and xr(s2, K, s1.n - s1.b) == (xe(s2, K, s1.n - s1.b) if s1.b >= 1 else xe(s2, K + 1, 0)))
+
+
+@hint(LLE, when='entry')
+def lle_h_grid(s1, s2, K, j):
+    return (grid_points_e(s1, s2, K, j, 1, 0) and ye(s2, K) == ye(s1, K) and ye(s2, K - 1) == ye(s1, K - 1) and ye(s2, K + 1) == ye(s1, K + 1))
+
+
+@hint(LLE, when='entry')
+def lle_h_borders(s1, s2, K, j):
+    return (z0(s2, K) == z0(s1, K) and z0(s2, K + 1) == z0(s1, K + 1) and zlb(s2, K) == zlb(s1, K) and zrb(s2, K) == zrb(s1, K))
+
+
+@hint(LLE, when='entry')
+def lle_h_pieces(s1, s2, K, j):
+    return (fe1(s2, K, j) == fe1(s1, K, j) and fe2(s2, K, j) == fe2(s1, K, j) and fe4(s2, K, j) == fe4(s1, K, j) and fe5(s2, K, j) == fe5(s1, K, j))
+
+
+@ensures(LLE)
+def lle_local(s1, s2, K, j):
+    """C07: a recreated value of an interval reads only that interval's and the two adjacent intervals' averages"""
+    return fe(s2, K, j) == fe(s1, K, j)
